@@ -35,6 +35,12 @@ def generate(rng, tier):
             c["yin"] = list(c["yin"])
             c["yin"][len(c["yin"]) // 2] = float("nan")
             c["desc"]["data"] = str(c["desc"]["data"]) + "+nan sample"
+    for i, c in enumerate(cases):
+        if i % 12 == 7 and len(c["xin"]) >= 2 and min(c["xin"]) > 0 and c["xmin"] is None:
+            # a lower limit given explicitly at or below the origin on a grid that starts above it: the limits only select points, the
+            # sum is still the one over the input grid
+            c["xmin"] = 0.0 if (i // 12) % 2 == 0 else -1.5
+            c["desc"]["window"] = "explicit lower limit at or below 0"
     return cases
 
 
